@@ -145,7 +145,7 @@ check("C12",
       "Model/Irq.v: the documented delivery gate (master enable, mask bit, status bit), the gate PCE500Emulator.step actually uses, and the five-byte frame both implementations push (PC, F, IMR below S, master enable cleared, PC := vector). "
       "Coq theorems: the gate needs all three ingredients; the frame lays out exactly IMR, F, PC0..2 below the old S, clears only IMR.7 and touches no other byte; and delivering an interrupt followed by the IL the lifter emits for RETI (run by the model evaluator, symbolic state) restores PC, S, F with both flags, IMR and every architectural register, memory unchanged except the five frame bytes - for every state with a well-formed register file, byte memory and five bytes of stack (F round trip decided over all 256 values in the kernel); the Python gate is refuted with a witness. "
       "Every run, on PCE500Emulator.step and CoreRuntime::step: generated main programs/handlers x 13 initial masks x both timers at periods 2-9 x ON-key presses x matrix-key presses and releases; a trace oracle evaluates the property on each core (gate from the pushed IMR, exact frame, master enable cleared, vector, no re-entry, RETI restores, halted executes nothing and wakes on status, fresh enabled requests taken within 4 steps) and every observed frame is compared with the extracted model frame.",
-      "Trusted: Coq kernel, extraction, harness irq_cmd.py / irq_cmd.rs, the trace oracle in checks/c12.py. Modelled and proved: frame + RETI inverse over the IL model. NOT modelled: the controllers' bookkeeping (pending, latched, armed-from-ISR flags) and timer/keyboard event generation in both implementations - decided by the trace oracle, so the level is partial; matrix keys are pressed and released in 30% of the scenarios (all columns strobed first), besides the ON key and both timers. Known finding: Python takes KEY/ON-key interrupts with the master enable clear.",
+      "Trusted: Coq kernel, extraction, harness irq_cmd.py / irq_cmd.rs, the trace oracle in checks/c12.py. Modelled and proved: frame + RETI inverse over the IL model. NOT modelled: the controllers' bookkeeping (pending, latched, armed-from-ISR flags) and timer/keyboard event generation in both implementations - decided by the trace oracle, so the level is partial; matrix keys are pressed and released in 30% of the scenarios (all columns strobed first), besides the ON key and both timers. Scenario families also cover a non-zero BP, LCD traffic, a request masked inside a handler and unmasked later, and pairs of runs that differ only in the time spent powered off. Known findings: Python takes KEY/ON-key interrupts with the master enable clear; Python has no powered-off state (timers tick while OFF).",
       "Coq proof (symbolic execution of RETI over the delivery frame, lia; in-kernel sweep for F) + trace-oracle evaluation on Python and Rust machine runs + extracted frame correspondence",
       "DESIGN.md 5 C12")
 
